@@ -28,7 +28,21 @@ def make_tree(r, idx):
              b"one/t1/b": Node("file", 0o644, data=[("bytes", b"b")]), b"one/t2/zz": Node("file", 0o644, data=[("bytes", b"zz")]),
              b"one": Node("dir", 0o755), b"one/t1": Node("dir", 0o755), b"one/t2": Node("dir", 0o755), b"one/single": Node("fifo", 0o600),
              b"one/t2/y": Node("slink", 0o777, target=b"z"), b"one/t1/y": Node("slink", link_to=b"one/t2/y")}
-        return t, {"hardlink", "case-only-names", "dir-of-dirs"}
+        # directories with exactly one, two and three entries: a file and a sub directory that holds another name of that file
+        # (which of the two is met first decides the primary name; tiny directories are where a sort gets "optimised away")
+        for d, fname, extra in ((b"two", b"m", []), (b"twob", b"0", []), (b"three", b"m", [b"zz"]), (b"threeb", b"0", [b"zz"])):
+            t[d] = Node("dir", 0o755)
+            t[d + b"/" + fname] = Node("file", 0o644, data=[("bytes", b"tiny " + d)])
+            t[d + b"/a"] = Node("dir", 0o755)
+            t[d + b"/a/w"] = Node("file", 0o644, data=[("bytes", b"w")])
+            t[d + b"/a/x"] = Node("file", link_to=d + b"/" + fname)
+            t[d + b"/a/y"] = Node("fifo", 0o600)
+            for e in extra:
+                t[d + b"/" + e] = Node("fifo", 0o600)
+        t[b"single"] = Node("dir", 0o755)
+        t[b"single/a"] = Node("dir", 0o755)
+        t[b"single/a/x"] = Node("file", link_to=b"two/m")
+        return t, {"hardlink", "case-only-names", "dir-of-dirs", "tiny-dirs"}
     if idx % 3 == 1 and idx % 2 == 1:
         # names that are prefixes of one another, linked, with unrelated entries sorting in between
         t = {b"": Node("dir", 0o755), b"data": Node("file", 0o644, data=[("bytes", b"D")]), b"data.bak": Node("file", link_to=b"data"),
